@@ -44,7 +44,7 @@ fn main() {
             _ => { extra.push(args[i].clone()); i += 1; }
         }
     }
-    let mut out: Box<dyn Write> = match out_path {
+    let mut out: Box<dyn Write + Send> = match out_path {
         Some(p) => Box::new(std::io::BufWriter::new(std::fs::File::create(p).unwrap())),
         None => Box::new(std::io::BufWriter::new(std::io::stdout())),
     };
@@ -102,6 +102,43 @@ fn main() {
         out.flush().unwrap();
         return;
     }
+    // the generator runs on a thread of its own; this one watches the progress reports of generators that make them:
+    // a case that does not come back within the time allowed ends the run with `HANG <case id>` (exit code 3)
+    let gen_args = args.clone();
+    let worker = std::thread::spawn(move || run_gen(&gen_args, seed, &tier, out));
+    let allowed = std::time::Duration::from_secs(std::env::var("VERIF_HANG_SECS").ok().and_then(|x| x.parse().ok()).unwrap_or(45));
+    let mut last = (rng::WATCH_TICK.load(std::sync::atomic::Ordering::SeqCst), std::time::Instant::now());
+    while !worker.is_finished() {
+        std::thread::sleep(std::time::Duration::from_millis(100));
+        let t = rng::WATCH_TICK.load(std::sync::atomic::Ordering::SeqCst);
+        if t != last.0 {
+            last = (t, std::time::Instant::now());
+        } else if rng::WATCH_ARMED.load(std::sync::atomic::Ordering::SeqCst) && last.1.elapsed() > allowed {
+            let id = rng::WATCH_CASE.lock().map(|g| g.clone()).unwrap_or_default();
+            eprintln!("HANG {}", id);
+            // the targets this run started would otherwise stay behind
+            if let Ok(rd) = std::fs::read_dir("/proc") {
+                let me = std::process::id().to_string();
+                for e in rd.flatten() {
+                    let name = e.file_name().to_string_lossy().into_owned();
+                    if !name.bytes().all(|b| b.is_ascii_digit()) {
+                        continue;
+                    }
+                    if let Ok(st) = std::fs::read_to_string(format!("/proc/{}/stat", name)) {
+                        if st.rsplit(") ").next().and_then(|r| r.split(' ').nth(1)).map(|pp| pp == me).unwrap_or(false) {
+                            unsafe { libc::kill(name.parse().unwrap_or(0), libc::SIGKILL) };
+                        }
+                    }
+                }
+            }
+            std::process::exit(3);
+        }
+    }
+    let _ = worker.join();
+}
+
+fn run_gen(args: &[String], seed: u64, tier: &str, mut out: Box<dyn Write + Send>) {
+    let tier = tier.to_string();
     match (args[1].as_str(), args[2].as_str()) {
         ("gen", "C16") => c16::generate(seed, &tier, &mut out),
         ("gen", "C12") => { c12::generate("C12", seed, &tier, &mut out); c12::generate_live("C12", seed, &tier, &mut out); c01::generate("C12", seed, &tier, &mut out) }
